@@ -37,8 +37,7 @@ def int_div_ceil(u):
                    ' if num as int % denom as int != 0 && num as int / denom as int == 0xffff_ffff_ffff_ffff { lemma_fundamental_div_mod(num as int, denom as int);'
                    '   assert(denom as int * (num as int / denom as int) >= num as int / denom as int) by (nonlinear_arith) requires denom as int >= 1, num as int / denom as int >= 0; }'
                    ' lemma_trunc_u64_u32(num / denom); if num as int % denom as int != 0 { lemma_trunc_u64_u32((num / denom + 1) as u64); } }')],
-         subst=[('(num / denom + 1) as u32', '#[verifier::truncate] ((num / denom + 1) as u32)', 'truncate-annot'),
-                ('(num / denom) as u32', '#[verifier::truncate] ((num / denom) as u32)', 'truncate-annot')])
+         resubst=[(r'\(([^()]*)\) as u32', r'#[verifier::truncate] ((\1) as u32)', 'truncate-annot')])
 
 
 def build():
